@@ -619,7 +619,7 @@ def r09_10(ctx):
     ctx.ob("whole-input-sites", n >= 2, "lib", f"{n} site(s) present captured reader bytes as complete input")
 
 
-@rule("R09.11", 2, "the fused prefix reader is a pure pass-through: bytes reach the caller's buffer only through the inner reader's own read on that buffer, and the count returned is that call's (or 0 once the inner reader is gone)", ["C09", "C02"])
+@rule("R09.11", 2, "the fused prefix reader is a pure pass-through: bytes reach the caller's buffer only through the inner reader's own read on that buffer, and the count returned is that call's (or 0 once the inner reader is gone)", ["C09", "C02", "C03"])
 def r09_11(ctx):
     lib = ctx.lib
     fused = [p_ for p_, a in lib.adts.items() if a["crate"] == "xt" and a["kind"] == "struct" and len(a["variants"][0]["fields"]) == 1 and re.match(r"^std::option::Option<[A-Z]\w*>$", a["variants"][0]["fields"][0]["ty"])
@@ -1296,7 +1296,7 @@ def _short_of_requested_total(b, read_call, len_op, total_op):
         if (fn_of(tk) or {}).get("def") != "std::io::Read::take" or len(tk["args"]) != 2:
             continue
         lim = trace(b, tk["args"][1], passthrough_extra=("cast", "std::convert::TryFrom::try_from", "std::convert::From::from", "std::convert::Into::into", "std::result::Result::<T, E>::unwrap", "std::result::Result::<T, E>::unwrap_or"))
-        if lim.origin and lim.origin[0] == "call" and (fn_of(lim.origin[2]) or {}).get("name") in ("saturating_sub", "checked_sub", "wrapping_sub") and len(lim.origin[2]["args"]) == 2:
+        if lim.origin and lim.origin[0] == "call" and (fn_of(lim.origin[2]) or {}).get("name") in ("saturating_sub", "checked_sub") and len(lim.origin[2]["args"]) == 2:
             x, y = lim.origin[2]["args"]
         elif lim.origin and lim.origin[0] == "rvalue" and lim.origin[1]["rv"]["k"] == "binop" and lim.origin[1]["rv"]["op"].startswith("Sub"):
             x, y = lim.origin[1]["rv"]["a"], lim.origin[1]["rv"]["b"]
